@@ -216,3 +216,59 @@ Proof.
   destruct (o1 =? o2) eqn:O1; destruct (o2 =? o1) eqn:O2; cbn; intros H1 H2; try lia.
   f_equal; lia.
 Qed.
+
+(* ---- decode-then-encode ---- *)
+Lemma be_dec_lt l : wf_bytes l = true -> be_dec l < 256 ^ N.of_nat (length l).
+Proof.
+  induction l as [|b l IH] using rev_ind; intros W.
+  - cbn. lia.
+  - rewrite wf_bytes_app in W. apply andb_true_iff in W as [W1 W2].
+    cbn in W2. rewrite andb_true_r in W2. unfold wf_byte in W2. apply N.ltb_lt in W2.
+    specialize (IH W1). unfold be_dec in *. rewrite fold_left_app. cbn [fold_left].
+    rewrite app_length. cbn [length]. rewrite Nat.add_1_r, pow256_succ. nia.
+Qed.
+
+Lemma be_enc_dec l : wf_bytes l = true -> be_enc (length l) (be_dec l) = l.
+Proof.
+  induction l as [|b l IH]; intros W; [reflexivity|].
+  cbn [wf_bytes forallb] in W. apply andb_true_iff in W as [Wb W].
+  unfold wf_byte in Wb. apply N.ltb_lt in Wb. fold (wf_bytes l) in W.
+  cbn [length be_enc]. unfold be_dec at 1 2. cbn [fold_left].
+  rewrite be_dec_acc. pose proof (be_dec_lt l W) as L. pose proof (pow256_pos (length l)) as P.
+  replace ((0 * 256 + b) * 256 ^ N.of_nat (length l) + be_dec l)
+    with (be_dec l + b * 256 ^ N.of_nat (length l)) by lia.
+  rewrite N.div_add by lia. rewrite N.mod_add by lia.
+  rewrite (N.div_small (be_dec l)) by lia. rewrite (N.mod_small (be_dec l)) by lia.
+  rewrite N.add_0_l, (N.mod_small b) by lia. now rewrite IH.
+Qed.
+
+(* decode-then-encode: every well-formed internal key longer than 8 bytes is the encoding of
+   its parsed user key and version *)
+Lemma key_with_ts_parse ik : wf_bytes ik = true -> (8 < length ik)%nat ->
+  key_with_ts (parse_key ik) (parse_ts ik) = ik /\ parse_ts ik < two64 /\ parse_key ik <> [].
+Proof.
+  intros W L. unfold key_with_ts, parse_key, parse_ts.
+  destruct (length ik <? 8)%nat eqn:E1; [lia|]. destruct (length ik <=? 8)%nat eqn:E2; [lia|].
+  unfold dropn_end, lastn.
+  assert (W8 : wf_bytes (skipn (length ik - 8) ik) = true).
+  { rewrite <- (firstn_skipn (length ik - 8) ik), wf_bytes_app in W. now apply andb_true_iff in W as [_ W]. }
+  assert (L8 : length (skipn (length ik - 8) ik) = 8%nat) by (rewrite skipn_length; lia).
+  pose proof (be_dec_lt _ W8) as B. rewrite L8 in B. change (256 ^ N.of_nat 8) with two64 in B.
+  split; [|split].
+  - replace (max_u64 - (max_u64 - be_dec (skipn (length ik - 8) ik))) with (be_dec (skipn (length ik - 8) ik))
+      by (unfold max_u64, two64 in *; lia).
+    rewrite <- L8 at 2. rewrite (be_enc_dec _ W8). apply firstn_skipn.
+  - unfold max_u64, two64 in *. lia.
+  - intros H. apply (f_equal (@length N)) in H. rewrite firstn_length in H. cbn in H. lia.
+Qed.
+
+(* hence CompareKeys on ANY two well-formed stored keys orders them by (parsed key, parsed version) *)
+Lemma compare_keys_raw a b : wf_bytes a = true -> wf_bytes b = true ->
+  (8 < length a)%nat -> (8 < length b)%nat ->
+  compare_keys a b = Some (key_order (parse_key a) (parse_ts a) (parse_key b) (parse_ts b)).
+Proof.
+  intros Wa Wb La Lb.
+  destruct (key_with_ts_parse a Wa La) as (Ea & Ta & _).
+  destruct (key_with_ts_parse b Wb Lb) as (Eb & Tb & _).
+  rewrite <- Ea at 1. rewrite <- Eb at 1. now apply compare_keys_spec.
+Qed.
